@@ -1777,7 +1777,10 @@ func ReadTerm(vm *VM, streamOrAlias, out, options Term, k Cont, env *Env) *Promi
 
 	p := NewParser(vm, s)
 	t, err := p.Term()
-	if err != io.EOF { // The end of file is delivered, not looked ahead at.
+	switch err {
+	case io.EOF, errWrongIOMode, errWrongStreamType, errPastEndOfStream:
+		// Nothing to give back: the end of file is delivered, not looked ahead at, and the others didn't read at all.
+	default:
 		_ = s.UnreadRune() // The parser has read one rune ahead. Give it back before anything else reads from s.
 	}
 	switch err {
